@@ -42,6 +42,8 @@ def build(types, dt100, stop=1000, spawn=None, default_v=2):
                     elif p["op"] == "PlanSet":
                         if p["kind"] == "st":
                             self.state = p["x"]
+                        elif p["kind"] == "w":      # the agent gives itself a numeric property it may not have had
+                            self.set_property("w", {"type": "Double", "value": p["x"] / 2.0})
                         else:
                             self.v = p["x"] / 2.0
                     elif p["op"] == "PlanDel":
@@ -85,8 +87,15 @@ def build(types, dt100, stop=1000, spawn=None, default_v=2):
     return m
 
 
-def prop_v(v):
-    return {"v": {"type": "Double", "value": v / 2.0}}
+NO_W = -999
+
+
+def prop_v(v, w=None):
+    """properties of a reference agent: v always, the second numeric property w only if given (values in halves)"""
+    d = {"v": {"type": "Double", "value": v / 2.0}}
+    if w is not None and w != NO_W:
+        d["w"] = {"type": "Double", "value": w / 2.0}
+    return d
 
 
 def queries(m, types):
@@ -134,7 +143,7 @@ def stats_at(m, t, types):
         for s in STATES:
             cell = row.get(ty, {}).get(s)
             if cell is None:
-                out[ty][s] = {"count": 0, "total": 0, "min": 0, "max": 0}
+                out[ty][s] = {"count": 0, "total": 0, "min": 0, "max": 0, "w": None}
             else:
                 v = cell.get("v")
                 if v is None:
@@ -142,4 +151,6 @@ def stats_at(m, t, types):
                 else:
                     out[ty][s] = {"count": cell["count"], "total": v["total"] * 2, "min": v["min"] * 2,
                                   "max": v["max"] * 2, "mean": v["mean"] * 2}
+                w = cell.get("w")
+                out[ty][s]["w"] = None if w is None else {"total": w["total"] * 2, "min": w["min"] * 2, "max": w["max"] * 2, "mean": w["mean"] * 2}
     return out
